@@ -149,6 +149,11 @@ class Check:
         self.rng = random.Random(seed)
         kf = os.path.join(VERIF, "known_findings.json")
         self.findings = json.load(open(kf)) if os.path.exists(kf) else []
+        fd = os.path.join(VERIF, "findings.d")
+        if os.path.isdir(fd):
+            for f in sorted(os.listdir(fd)):
+                if f.endswith(".json"):
+                    self.findings += json.load(open(os.path.join(fd, f)))
         self._seen_keys = set()
 
     # ---- coverage counters
